@@ -14,10 +14,25 @@ Record config := Cfg {
   c_name : bytes;                     (* NewService(name): Mux.path *)
   c_res : option (list bytes);        (* SetOwnedResources(resources, _); None = nil (the default) *)
   c_acc : option (list bytes);        (* SetOwnedResources(_, access) *)
-  c_has_res : bool;                   (* Contains(Get != nil || len(Call) > 0 || len(Auth) > 0 || New != nil) *)
-  c_has_acc : bool;                   (* Contains(Access != nil) *)
+  c_has_res : bool;                   (* Contains(Get != nil || len(Call) > 0 || len(Auth) > 0 || New != nil): see layout_has_res *)
+  c_has_acc : bool;                   (* Contains(Access != nil): see layout_has_acc *)
   c_queue : bytes                     (* queue group; [] = ChanSubscribe instead of ChanQueueSubscribe *)
 }.
+
+(* The registered handlers, one entry per Handle / AddHandler call anywhere in the service's mux tree
+   (directly, below other handlers, on placeholder / wildcard patterns, inside mounted muxes, on the
+   root pattern ""): the full pattern below the service name, whether the handler has a Get, Call,
+   Auth or New method, and whether it has an Access method.  setDefaultOwnership asks Mux.Contains
+   whether SOME registered handler passes the test; the model takes that reading (the property's
+   "handler kinds actually registered"), the correspondence harness compares it with the real
+   traversal. *)
+Record hreg := HReg { h_pat : bytes; h_res : bool; h_acc : bool }.
+Definition layout := list hreg.
+Definition layout_has_res (l : layout) : bool := existsb h_res l.
+Definition layout_has_acc (l : layout) : bool := existsb h_acc l.
+(* the configuration of a service with these registrations *)
+Definition cfg_layout (name : bytes) (res acc : option (list bytes)) (l : layout) (queue : bytes) : config :=
+  Cfg name res acc (layout_has_res l) (layout_has_acc l) queue.
 
 (* defaultOwnership *)
 Definition default_ownership (name : bytes) : list bytes :=
